@@ -695,6 +695,42 @@ def run(tier: str) -> int:
                 rep.add_violation(f"verdict-depends-on-history:{order}",
                                   "the same expression text gets a verdict that depends on an earlier compile with other declared names",
                                   {"source": src, "declared_all": used, "declared_narrow": narrow, "order": order, "verdicts": [first, second], "documented": list(want)})
+    # ---- declared names are compared as whole identifiers: a name that merely resembles the declared ones is undeclared ------
+    name_sets = [["file_format", "n_iter"], ["path", "open_angle"], ["offset"], ["x", "y", "t"], ["alpha_1", "beta"], ["maximum", "absolute"],
+                 ["eval_count", "exec_time", "import_rate"], ["getattr_", "len_x"]]
+    allowed_funcs = set(getattr(se._SafeVisitor, "_ALLOWED_FUNCS", ()))
+    stats["name_confusion_cases"] = 0
+    for declared in name_sets:
+        texts = [", ".join(sorted(declared)), "".join(declared), repr(sorted(declared)), repr(set(declared)), " ".join(declared), "|".join(declared)]
+        cands = set()
+        for text in texts:
+            for a in range(len(text)):
+                for b in range(a + 1, min(len(text), a + 14) + 1):
+                    w = text[a:b]
+                    if w.isidentifier() and not __import__("keyword").iskeyword(w):
+                        cands.add(w)
+        for d in declared:
+            cands.update({d.upper(), d.capitalize(), d + "_", "_" + d, d + "1", d[:-1], d[1:]})
+        cands = sorted(c for c in cands if c and c.isidentifier() and c not in declared and c not in allowed_funcs
+                       and not __import__("keyword").iskeyword(c))
+        first = declared[0]
+        for cand in cands:
+            for src in (cand, f"{first} + {cand}", f"str({cand})", f"max(({first},), key={cand})"):
+                stats["name_confusion_cases"] += 1
+                ev = se.ExpressionEvaluator()
+                try:
+                    ev.compile(src, set(declared))
+                    verdict = "accepted"
+                except se.ExpressionError:
+                    verdict = "rejected"
+                except Exception as exc:  # noqa: BLE001
+                    verdict = "raises " + type(exc).__name__
+                if verdict != "rejected":
+                    rep.add_violation("undeclared-name-accepted:resembles-declared",
+                                      f"an expression using the undeclared name {cand!r} is {verdict} when the declared variables are {sorted(declared)}",
+                                      {"source": src, "declared": sorted(declared), "undeclared_name": cand, "verdict": verdict,
+                                       "is_builtin": hasattr(builtins, cand)})
+                    break
     # rejected expression whose first operand would have an observable effect if evaluated early
     for src in ["abs(1) + zz_undeclared", "max(abs(1), (lambda: 0)())", "abs(1).real"]:
         acc2, err2, fn, ncalls = compile_real(se, src)
